@@ -78,11 +78,15 @@ def buildSetEvents (t : Task) (u : Updates) (agent : String) (now : Time) : Exce
   -- claim
   let claimWasSet := claim.isSome && !t.isEpic
   let claimValue := claim.getD ""
-  let evClaim := match claim with
-    | none => []
+  let evClaim ← match claim with
+    | none => pure []
     | some cv =>
-      if t.isEpic then [] else
-      if cv == "" then [Event.unclaim id] else [Event.claim id cv (some now)]
+      if t.isEpic then pure [] else
+      if cv == "" then
+        -- clearing the claim without a state change: the kept state must tolerate "unclaimed"
+        if u.state.isNone && !claimInvariantOk t.st "" then throw .claimInvariant
+        else pure [Event.unclaim id]
+      else pure [Event.claim id cv (some now)]
   -- state
   let evState ← match u.state with
     | none => pure []
@@ -95,8 +99,10 @@ def buildSetEvents (t : Task) (u : Updates) (agent : String) (now : Time) : Exce
         let nc := if st.clearsClaim then "" else nc
         if !claimInvariantOk st nc then throw .claimInvariant
         else pure [Event.state id st (some now)]
-  let evTrail :=
-    if claimWasSet && claimValue != "" && u.state.isNone then [Event.state id .doing (some now)] else []
+  let evTrail ←
+    if claimWasSet && claimValue != "" && u.state.isNone then
+      if !validTransition t.st .doing then throw .badTransition else pure [Event.state id .doing (some now)]
+    else pure []
   pure (evTitle ++ evBody ++ evEpic ++ evClaim ++ evState ++ evTrail)
 
 /-! ## lock sections -/
@@ -115,10 +121,22 @@ def secSet (g : Graph) (id : Id) (u : Updates) (agent : String) (now : Time) : E
   | some t =>
     if t.isEpic && u.state.isSome then throw .epicNoState
     if t.isEpic && u.claim.isSome then throw .epicNoClaim
+    -- an epic assignment must name a live epic ("" unassigns)
+    match u.epic with
+    | none => pure ()
+    | some e =>
+      if e != "" && !t.isEpic then
+        if g.tombed e then throw (.pruned e)
+        match g.find? e with
+        | none => throw .unknownEpic
+        | some ep => if !ep.isEpic then throw .notEpic
     let evs ← buildSetEvents t u agent now
     pure (.append evs)
 
-/-- first id of the RNG stream (at most 64 draws) that is not a *live* id — `newShortID` -/
+/-- ids `newShortID` refuses: live ones and pruned ones -/
+def Graph.taken (g : Graph) (i : Id) : Bool := g.tombed i || g.has i
+
+/-- first id of the RNG stream (at most 64 draws) that is not taken — `newShortID` -/
 def pickId (live : Id → Bool) (ids : List Id) : Option (Id × List Id) :=
   go 64 ids
 where go : Nat → List Id → Option (Id × List Id)
@@ -132,8 +150,8 @@ def secCreate (g : Graph) (isEpic : Bool) (epicId title body : String) (ids : Li
   if !isEpic && epicId != "" then
     match g.find? epicId with
     | none => throw .unknownEpic
-    | some e => if e.epicId != "" then throw .notEpic
-  match pickId g.has ids with
+    | some e => if !e.isEpic then throw .notEpic
+  match pickId g.taken ids with
   | none => throw .idExhausted
   | some (id, _) =>
     pure (.append [Event.newItem isEpic id uuid (if isEpic then "" else epicId) .todo title body (some now)], id)
